@@ -450,3 +450,74 @@ pub fn expected_image(spec: &ElfSpec) -> Vec<u8> {
     }
     img
 }
+
+/// A minimal MES-style executable: one PT_LOAD segment holding `code` (+ `bss` zero bytes), a .stack
+/// section of `stack` bytes, and a symbol table whose `___exit` has value `exit`.
+pub fn simple_elf(code: &[u8], bss: u32, stack: u32, exit: u32) -> Vec<u8> {
+    let shstr: &[u8] = b"\0.text\0.stack\0.symtab\0.strtab\0.shstrtab\0.got\0";
+    let name = |n: &str| -> u32 {
+        let pat = format!("{}\0", n);
+        shstr.windows(pat.len()).position(|w| w == pat.as_bytes()).unwrap() as u32
+    };
+    let strtab: &[u8] = b"\0_start\0___exit\0";
+    let mut symtab: Vec<u8> = vec![0; 16];
+    for (n, v) in [(1u32, 0u32), (8, exit)] {
+        be32(&mut symtab, n);
+        be32(&mut symtab, v);
+        be32(&mut symtab, 0);
+        symtab.push(0x10);
+        symtab.push(0);
+        be16(&mut symtab, 1);
+    }
+    let mut file: Vec<u8> = vec![0; 52];
+    let phoff = file.len() as u32;
+    file.extend(std::iter::repeat(0).take(32));
+    let code_off = file.len() as u32;
+    file.extend_from_slice(code);
+    let sym_off = file.len() as u32;
+    file.extend_from_slice(&symtab);
+    let str_off = file.len() as u32;
+    file.extend_from_slice(strtab);
+    let shstr_off = file.len() as u32;
+    file.extend_from_slice(shstr);
+    while file.len() % 4 != 0 {
+        file.push(0);
+    }
+    let shoff = file.len() as u32;
+    // sections: null, .text, .got (empty), .stack, .symtab, .strtab, .shstrtab
+    let secs: Vec<[u32; 10]> = vec![
+        [0; 10],
+        [name(".text"), 1, 6, 0, code_off, code.len() as u32, 0, 0, 4, 0],
+        [name(".got"), 1, 3, code.len() as u32, code_off + code.len() as u32, 0, 0, 0, 4, 0],
+        [name(".stack"), 1, 3, stack, shoff, 0, 0, 0, 1, 0],
+        [name(".symtab"), 2, 0, 0, sym_off, symtab.len() as u32, 5, 1, 4, 16],
+        [name(".strtab"), 3, 0, 0, str_off, strtab.len() as u32, 0, 0, 1, 0],
+        [name(".shstrtab"), 3, 0, 0, shstr_off, shstr.len() as u32, 0, 0, 1, 0],
+    ];
+    for s in &secs {
+        for f in s {
+            be32(&mut file, *f);
+        }
+    }
+    let mut ph = vec![];
+    for f in [1u32, code_off, 0, 0, code.len() as u32, code.len() as u32 + bss, 7, 1] {
+        be32(&mut ph, f);
+    }
+    file[phoff as usize..phoff as usize + 32].copy_from_slice(&ph);
+    let mut h: Vec<u8> = vec![0x7f, b'E', b'L', b'F', 1, 2, 1, 0, 0, 0, 0, 0, 0, 0, 0, 0];
+    be16(&mut h, 2);
+    be16(&mut h, 46);
+    be32(&mut h, 1);
+    be32(&mut h, 0);
+    be32(&mut h, phoff);
+    be32(&mut h, shoff);
+    be32(&mut h, 0x810000);
+    be16(&mut h, 52);
+    be16(&mut h, 32);
+    be16(&mut h, 1);
+    be16(&mut h, 40);
+    be16(&mut h, secs.len() as u16);
+    be16(&mut h, 6);
+    file[..52].copy_from_slice(&h);
+    file
+}
